@@ -189,10 +189,20 @@ def versions():
     return module("ZooVer", "\n".join(d))
 
 
+def importing():
+    """types of another module as plain component, OPTIONAL, list element, CHOICE alternative"""
+    d = []
+    d.append("Garage ::= SEQUENCE { main Color, spare ColorX OPTIONAL, paints SEQUENCE OF Color, levels SEQUENCE (SIZE(0..3)) OF IntU8, "
+             "pick CHOICE { c Color, n IntI8 } }")
+    d.append("Fleet ::= SEQUENCE OF Color")
+    d.append("Pick ::= CHOICE { colour Color, count IntU16, many SEQUENCE OF IntNib }")
+    return module("ZooImp", "\n".join(d), imports="IMPORTS Color, ColorX, IntU8, IntI8, IntU16, IntNib FROM ZooLeaf;")
+
+
 def main():
     os.makedirs(OUT, exist_ok=True)
     files = {"zoo_leaf.asn1": leaf(), "zoo_shape.asn1": shapes(), "zoo_nested.asn1": nested(),
-             "zoo_set.asn1": sets(), "zoo_ver.asn1": versions()}
+             "zoo_set.asn1": sets(), "zoo_ver.asn1": versions(), "zoo_imp.asn1": importing()}
     for n, t in files.items():
         with open(os.path.join(OUT, n), "w") as f:
             f.write(t)
